@@ -92,4 +92,60 @@ Theorem C01_rcv_needs_slice_refuted :
 Proof. exact rcv_needs_slice_refuted. Qed.
 Print Assumptions C01_rcv_needs_slice_refuted.
 
-(* send direction: added at integration *)
+(* ---------------------------------------------------------------- send direction
+   (Proofs/TcpSndInvP.v, TcpSndLoopP.v, TcpSndP.v).  W = the concatenation of the accepted
+   prefixes of the application's writes; TcpSndInvP.is_slice W off d says d = W[off, off+|d|). *)
+From NP Require Proofs.TcpSndInvP Proofs.TcpSndP.
+
+(* every data segment ever emitted - first transmission, split at window/MSS, after cumulative or
+   partial ACK trimming, fast retransmit, time-out retransmission - carries exactly the bytes of W at
+   the offset its sequence number names, from connection establishment on, for every ISS *)
+Theorem C01_snd_emits_slices : forall iss t0 es,
+  TcpSndP.established iss t0 -> Forall TcpSndP.ev_ok es -> len (TcpSndP.written t0 es) < 2^30 ->
+  forall f, In f (run_out t0 es) -> f_data f <> [] ->
+  exists off, f_seq f = seq_of iss off /\ TcpSndInvP.is_slice (TcpSndP.written t0 es) off (f_data f).
+Proof. exact TcpSndP.snd_emits_slices_established. Qed.
+Print Assumptions C01_snd_emits_slices.
+
+(* the same from any state satisfying the write-list invariant *)
+Theorem C01_snd_emits_slices_inv : forall iss W0 t0 es,
+  TcpSndInvP.Inv iss W0 t0 -> Forall TcpSndP.ev_ok es -> len (W0 ++ TcpSndP.written t0 es) < 2^30 ->
+  forall f, In f (run_out t0 es) -> f_data f <> [] ->
+  exists off, f_seq f = seq_of iss off /\ TcpSndInvP.is_slice (W0 ++ TcpSndP.written t0 es) off (f_data f).
+Proof. exact TcpSndP.snd_emits_slices. Qed.
+Print Assumptions C01_snd_emits_slices_inv.
+
+(* a FIN carries no data, sits at exactly |W| and only appears after the shutdown *)
+Theorem C01_snd_fin_after_all_data : forall iss t0 es,
+  TcpSndP.established iss t0 -> Forall TcpSndP.ev_ok es -> len (TcpSndP.written t0 es) < 2^30 ->
+  forall f, In f (run_out t0 es) -> has (f_flags f) fFin = true ->
+  f_data f = [] /\ f_seq f = seq_of iss (len (TcpSndP.written t0 es)) /\ sndClosedE (run t0 es) = true.
+Proof. exact TcpSndP.fin_after_all_data_established. Qed.
+Print Assumptions C01_snd_fin_after_all_data.
+
+(* data segments never carry FIN and never reach beyond the FIN's offset *)
+Theorem C01_snd_data_before_fin : forall iss W0 t0 es,
+  TcpSndInvP.Inv iss W0 t0 -> Forall TcpSndP.ev_ok es -> len (W0 ++ TcpSndP.written t0 es) < 2^30 ->
+  forall g, In g (run_out t0 es) -> f_data g <> [] ->
+  has (f_flags g) fFin = false /\
+  exists off, f_seq g = seq_of iss off /\ 0 <= off /\ off + len (f_data g) <= len (W0 ++ TcpSndP.written t0 es).
+Proof. exact TcpSndP.data_before_fin. Qed.
+Print Assumptions C01_snd_data_before_fin.
+
+(* after the shutdown no byte is ever accepted again *)
+Theorem C01_snd_no_write_after_shutdown : forall iss W t es,
+  TcpSndInvP.Inv iss W t -> Forall TcpSndP.ev_ok es -> sndClosedE t = true ->
+  TcpSndP.written t es = [] /\ sndClosedE (run t es) = true.
+Proof. exact TcpSndP.no_write_after_shutdown. Qed.
+Print Assumptions C01_snd_no_write_after_shutdown.
+
+(* the code before the repair of the partial-ACK defect (ackLoop without advancing the sequence
+   number) emits a retransmission that is not a slice at the offset its number names *)
+Theorem C01_snd_partial_ack_old_refuted :
+  exists t0 es f,
+    TcpSndInvP.Inv 1000 [] t0 /\ Forall TcpSndP.ev_ok es /\ len ([] ++ TcpSndP.written t0 es) < 2^30 /\
+    In f (TcpSndP.run_out_old t0 es) /\ f_data f <> [] /\
+    ~ (exists off, f_seq f = seq_of 1000 off /\ TcpSndInvP.is_slice ([] ++ TcpSndP.written t0 es) off (f_data f)).
+Proof. exact TcpSndP.snd_partial_ack_refuted. Qed.
+Print Assumptions C01_snd_partial_ack_old_refuted.
+
